@@ -21,7 +21,16 @@ Inductive sevent :=
 | SRenew (sid : str) (w : found_in)         (* Lookup, RenewLease, Store *)
 | STick (dt : Z)
 | SInvalidate (sid : str) (w : found_in)
-| SSweep (w : found_in).
+| SSweep (w : found_in)
+| SResumeInv (q : request) (wire_cmd : Z) (inv : list (str * found_in)).
+    (* a resumption during whose reply write (the write can block on the peer for as long as the
+       peer likes) other goroutines invalidate sessions: every cache effect of the resumption
+       (lookup, RenewLease, Store) precedes the reply, so the invalidations act on the state the
+       resumption left *)
+
+(* Invalidate calls landing while a resumption's reply is being written *)
+Definition inv_all (s : srv) (l : list (str * found_in)) : srv :=
+  fold_left (fun s' x => set_cache_at s' (snd x) (fst (invalidate (cache_at s' (snd x)) (fst x)))) l s.
 
 (* what a resumption request got *)
 Definition robs := (request * reply * sres)%type.
@@ -40,6 +49,8 @@ Definition sstep (st : srv * Z) (e : sevent) : (srv * Z) * list robs :=
   | STick dt => ((s, now + Z.max 0 dt), [])
   | SInvalidate sid w => ((set_cache_at s w (fst (invalidate (cache_at s w) sid)), now), [])
   | SSweep w => ((set_cache_at s w (fst (invalidate_expired (cache_at s w) now)), now), [])
+  | SResumeInv q wc inv =>
+      let '(s', rep, res) := handle_resumption s now q wc in ((inv_all s' inv, now), [(q, rep, res)])
   end.
 
 Fixpoint srun (st : srv * Z) (h : list sevent) : (srv * Z) * list robs :=
